@@ -68,6 +68,21 @@ def check_source(src, res, fam, classes=None, chunked=False):
     except Exception as e:
         return [('raise-%s' % type(e).__name__, 'echo of %r raised %r' % (src, e))]
     if out == src:
+        # rendering the object in another form (the pure-Lua listing of `p8tool listlua --pure-lua`) does not change it:
+        # the default writer still gives the source afterwards
+        if not chunked and (b'?' in src or b'//' in src or b'if' in src or len(src) % 7 == 0):
+            lua = lua_mod()
+            try:
+                obj = lua.Lua.from_lines(chunks, version=core.lua_version(chunks))
+                try:
+                    b''.join(obj.to_lines(writer_cls=lua.PureLuaWriter))
+                except Exception:
+                    pass
+                again = b''.join(obj.to_lines())
+            except Exception as e:
+                return [('raise-%s' % type(e).__name__, 'echo of %r after a pure-Lua listing raised %r' % (src, e))]
+            if again != src:
+                return [('changed-by-pure-lua-listing', 'after to_lines(writer_cls=PureLuaWriter) the same Lua object writes %r for the source %r' % (again, src))]
         res.outcome(('identical', fam))
         return []
     try:
